@@ -41,6 +41,10 @@ CHECKS = {
                 technique="fault enumeration over well-formed images on the real size_bytes_checked: every truncation point and every corruption of every blockLength/numInGroup/length instance, in a release build on an exact-size buffer ending at a PROT_NONE page with a CPU budget; reference = structural walk with unbounded integers",
                 text="For every image of the bounded space: every n in 0..len (+ trailing junk) and every header-field instance overwritten with 0, 1, fit-1, fit+1, max/2+1, max-1, max; size_bytes_checked(message | top-level group, n) must return (no fault = no read at offset >= n, no budget overrun = work bounded by n) and its (valid, size) must equal the reference walk's. Four genuine defect classes are recorded as known findings; every other disagreement is a violation.",
                 note="Trusted: kernel guard pages, ITIMER_VIRTUAL budget (250 ms for microseconds of legitimate work), the reference walk."),
+    "C10": dict(category="fault_enumeration", design_ref="DESIGN.md 5 / C10",
+                technique="fault enumeration: every view length n in 0..len (buffer ending at a PROT_NONE page) x every accessor / iterator step / container operation of the generated views, each op individually guarded in a checked build; plus header-steered variants; outcome classes OK / HANDLER / FAULT",
+                text="For every image of the bounded space and every truncation length, each operation of the op table is run on a view bound to exactly n bytes: a fault at or beyond p+n means the operation touched memory outside the view without the assertion handler (violation); the handler firing although the whole addressed sub-object lies inside the buffer is a spurious assertion (violation). Corrupted header fields steer dynamic offsets past the end; there only the first direction is judged.",
+                note="Trusted: guard pages, siglongjmp capture of the documented assertion handler. Accesses *before* p (pointer wrap-around) and CPU time are outside this property's sentence and are counted, not judged."),
     "C12": dict(category="model_checking", design_ref="DESIGN.md 5 / C12",
                 technique="explicit-state exploration of the real group iterators: state = iterator index, all iterator-op sequences up to depth 3 from begin() and end(), integer index model; all 16 dimension type pairs",
                 text="For each of the 16 (numInGroup, blockLength) type pairs x group sizes 0..3 x wire block lengths {0,1,2,5}: every in-domain sequence of iterator operations up to the depth bound is executed on the generated group views; after every step the entry address, it[k], (it+k)-k, distances and all six orderings against an iterator at every index are compared with index arithmetic. Nested groups: all inner-count vectors over {0,1,2}^n. resize/clear are checked to change only numInGroup.",
